@@ -53,7 +53,9 @@ SubRepl == Unrelated \cup
            { VObj("tuple12", <<>>, NoneOpt),
              VDict(<<KV(VStr(<<122, 122>>), VNone)>>),                          \* only an undeclared key
              VList(<<VObj("tuple12", <<>>, NoneOpt)>>),                         \* unconvertible member one level down
-             VDict(<<KV(VStr(<<122, 122>>), VList(<<VObj("tuple12", <<>>, NoneOpt)>>))>>) }
+             VDict(<<KV(VStr(<<122, 122>>), VList(<<VObj("tuple12", <<>>, NoneOpt)>>))>>),
+             \* keys whose text could mean something to a DSL or a formatter
+             VDict(<<KV(VStr(<<97, 63>>), VBool(FALSE)), KV(VStr(<<123, 125>>), VInt(1))>>) }
 
 \* values sitting exactly on a declared numeric bound (where tolerance and bounds meet)
 BoundValues == IF s.t \in {"int", "float"}
